@@ -84,7 +84,7 @@ pub const VCAP: usize = {vcap};
 
 
 def build_crdt_vcoll(ws, mode, harness_files, keys, nodes, vcap=None, name="crdt", timestamp_harness=(), extra_unwind=0,
-                     features_decl="verif_replay = []"):
+                     features_decl="verif_replay = []", export_api=False):
     """The whole datacake-crdt crate: Cargo deps and lib.rs from /repo, timestamp.rs verbatim, orswot.rs with the
     container import rewrites (solve mode) or verbatim (replay mode: std containers), harness modules appended."""
     d = ws.path(name)
@@ -98,6 +98,8 @@ def build_crdt_vcoll(ws, mode, harness_files, keys, nodes, vcap=None, name="crdt
     extra_mods = "\n#[allow(dead_code)]\nmod vcoll_cfg;\n"
     if mode == "solve":
         extra_mods += "#[allow(dead_code)]\nmod vcoll;\n"
+    if export_api:
+        extra_mods += "#[cfg(kani)]\npub use orswot::verif_api;\n"
     lib = dcv.mount("datacake-crdt/src/lib.rs", os.path.join(d, "src/lib.rs"))
     with open(os.path.join(d, "src/lib.rs"), "a") as f:
         f.write("\n// ---- appended by /verif ----" + extra_mods)
@@ -150,3 +152,98 @@ def validate_vcoll(ws, logs_dir, seed=0):
         tail = [l for l in out.strip().split("\n") if l.strip()][-10:]
         detail += " | " + " | ".join(tail)[:1200]
     return [{"name": "vcoll_vs_std", "ok": ok, "tests_passed": passed if ok else 0, "detail": detail}]
+
+
+# ---------------------------------------------------------------------------------------------
+# keyspace actor mount: real core.rs / storage.rs / keyspace/messages.rs / keyspace/actor.rs in a scratch crate,
+# neighbours that cannot run under Kani replaced at the crate boundary by shim crates of the same name
+
+ECV_CARGO = """[package]
+name = "ecv"
+version = "0.0.0"
+edition = "2021"
+
+[dependencies]
+thiserror = "1"
+async-trait = "0.1.58"
+crossbeam-utils = "0.8.14"
+smallvec = "1"
+rkyv = { version = "0.7.42", features = ["strict", "validation", "smallvec"] }
+puppet = { path = "../puppet" }
+datacake-rpc = { path = "../datacake-rpc" }
+datacake-node = { path = "../datacake-node" }
+datacake-crdt = { path = "../datacake-crdt", features = ["rkyv-support"] }
+
+[features]
+verif_replay = ["datacake-crdt/verif_replay"]
+
+[workspace]
+
+[lints.rust]
+unexpected_cfgs = { level = "allow" }
+
+[profile.dev]
+debug = 1
+"""
+
+ECV_LIB = """// generated root of the actor mount: the module tree of datacake-eventual-consistency restricted to the mounted files
+#![allow(dead_code, unused_imports)]
+mod core;
+mod keyspace;
+mod storage;
+
+pub use storage::{BulkMutationError, ProgressTracker, PutContext, Storage};
+
+pub use self::core::{Document, DocumentMetadata};
+use crate::core::DocVec;
+"""
+
+ECV_KEYSPACE_MOD = """mod actor;
+mod messages;
+
+pub use actor::{spawn_keyspace, KeyspaceActor};
+pub use messages::{Del, Diff, LastUpdated, MultiDel, MultiSet, Serialize, Set, NUM_SOURCES};
+
+pub const CONSISTENCY_SOURCE_ID: usize = 0;
+pub const READ_REPAIR_SOURCE_ID: usize = 1;
+"""
+
+ACTOR_REWRITES = [
+    # the partial-failure paths build a std HashSet<&Key> (SipHash + OS RNG + hashbrown): container model instead
+    (r"^use std::collections::HashSet;$", "use datacake_crdt::verif_api::HashSet;", 1),
+    # the bulk handlers collect (id, stamp) pairs into a std Vec under a symbolic filter and sort it (driftsort on a
+    # symbolic-length heap Vec does not finish in an hour): fixed-capacity Vec model with a stable constant-bound sort
+    (r"let mut valid_entries = Vec::with_capacity\(msg\.docs\.len\(\)\);",
+     "let mut valid_entries = datacake_crdt::verif_api::Vec::with_capacity(msg.docs.len());", 2),
+]
+
+
+STORAGE_REWRITES = [
+    # BulkMutationError carries the ids the store wrote in a heap Vec; under symbolic failure schedules the merged heap
+    # shapes do not finish in CBMC -> fixed-capacity IdVec (derefs to &[Key] like the original)
+    (r"pub\(crate\) successful_doc_ids: Vec<Key>,", "pub(crate) successful_doc_ids: datacake_crdt::verif_api::IdVec,", 1),
+    (r"pub fn new\(error: E, successful_doc_ids: Vec<Key>\) -> Self", "pub fn new(error: E, successful_doc_ids: datacake_crdt::verif_api::IdVec) -> Self", 1),
+    (r"Self::new\(error, Vec::new\(\)\)", "Self::new(error, datacake_crdt::verif_api::IdVec::new())", 1),
+]
+
+
+def build_actor_mount(ws, mode, harness_files, keys, nodes, extra_actor_rewrites=()):
+    import shutil
+    # Vec capacity = KEYS: bulk requests of at most KEYS documents, purge lists of at most KEYS tombstones (overflow is an assertion failure)
+    d_crdt, mounted, cfg = build_crdt_vcoll(ws, mode, ["harness_orswot_common.rs"], keys, nodes, vcap=keys, name="datacake-crdt", export_api=True)
+    for shim in ("datacake-node", "datacake-rpc", "puppet", "puppet-derive"):
+        shutil.copytree(os.path.join(ENC, "shims", shim), ws.path(shim), dirs_exist_ok=True)
+    d = ws.path("ecv")
+    os.makedirs(os.path.join(d, "src/keyspace"), exist_ok=True)
+    dcv.write(os.path.join(d, "Cargo.toml"), ECV_CARGO)
+    lockfile(d)
+    dcv.write(os.path.join(d, "src/lib.rs"), ECV_LIB)
+    dcv.write(os.path.join(d, "src/keyspace/mod.rs"), ECV_KEYSPACE_MOD)
+    base = "datacake-eventual-consistency/src/"
+    mounted.append(dcv.mount(base + "core.rs", os.path.join(d, "src/core.rs")))
+    mounted.append(dcv.mount(base + "storage.rs", os.path.join(d, "src/storage.rs"), rewrites=(STORAGE_REWRITES if mode == "solve" else [])))
+    mounted.append(dcv.mount(base + "keyspace/messages.rs", os.path.join(d, "src/keyspace/messages.rs")))
+    rules = list(ACTOR_REWRITES if mode == "solve" else []) + list(extra_actor_rewrites)
+    mounted.append(dcv.mount(base + "keyspace/actor.rs", os.path.join(d, "src/keyspace/actor.rs"), rewrites=rules,
+                             append=[os.path.join(ENC, h) for h in harness_files], subst={"@@UNWIND@@": cfg["unwind"]}))
+    return d, mounted, cfg
